@@ -20,7 +20,7 @@ CMDSETS = [
 ]
 
 POOLS = {
-    "string": ["w", "foo-bar", "a=b", "x y", "é", "7", "tr'ue", 'q"t', "NULL"],
+    "string": ["w", "foo-bar", "a=b", "x y", "é", "7", "tr'ue", 'q"t', "NULL", "line1\nline2", "\nlead", "a\tb=c", "e\u0301 \u65e5\u672c"],
     "boolean": list(BOOLW),
     "integer": ["5", "0", "42", "007", "+3", "1_0", "9007199254740993", "123456789012345678901234567890"],
     "float": ["1.5", "0.25", "1e3", "3", ".5", "inf", "0.1", "1e-7"],
